@@ -111,6 +111,26 @@ def run_case(ck, desc):
         if va.shape != arr.shape or not ck.margin(f"array with repeated pressures = scalar calls ({name})", float(np.max(np.abs(va - ref) / np.abs(ref))), 1e-12):
             k = int(np.argmax(np.abs(va - ref) / np.abs(ref))) if va.shape == arr.shape else -1
             ck.violation(f"ordering-holds-on-arrays-with-repeated-pressures.{name}", {"p": float(arr[k]), "array": float(va[k]) if k >= 0 else None, "scalar": float(ref[k]) if k >= 0 else None, "above_pb": bool(arr[k] > pb)}, desc)
+    # 4c. arrays of EVERY small size: k elements at or above p_b (k = 0 .. 12) after j below it (j = 0, 1, 4) -
+    #     a batch whose length happens to equal some dimension inside a correlation (six regressors, three
+    #     phases, two columns) is still a batch of pressures
+    for n_above in (range(13) if int(gor * 7) % 3 == 0 else ()):
+        for n_below in (0, 1, 4):
+            if n_above + n_below == 0:
+                continue
+            arr = np.concatenate([np.linspace(0.35 * pb, 0.93 * pb, n_below), pb * (1.0 + 0.11 * np.arange(n_above))])
+            for name in ("Bo", "rho_o", "co"):
+                if name == "co" and n_below:
+                    continue
+                try:
+                    va = np.asarray(fns[name](arr), dtype=float) if name != "co" else np.asarray(oil.oil_compressibility_undersat_Spivey(T, arr, api, gg, gor), dtype=float)
+                except Exception as e:  # noqa: BLE001
+                    ck.violation(f"ordering-holds-on-arrays-of-every-size.{name}", {"elements_at_or_above_pb": n_above, "elements_below": n_below, "raised": repr(e)[:160]}, desc)
+                    continue
+                ref = np.array([float(fns[name](float(x))) if name != "co" else float(oil.oil_compressibility_undersat_Spivey(T, float(x), api, gg, gor)) for x in arr])
+                if va.shape != arr.shape or not ck.margin(f"array of any small size = scalar calls ({name})", float(np.max(np.abs(va - ref) / np.abs(ref))), 1e-12):
+                    ck.violation(f"ordering-holds-on-arrays-of-every-size.{name}", {"elements_at_or_above_pb": n_above, "elements_below": n_below, "array": va.tolist()[:8], "scalar": ref.tolist()[:8]}, desc)
+    ck.count("array_sizes_swept", 38 if int(gor * 7) % 3 == 0 else 0)
     # ... and in DEPLETION order (first element above p_b) with the oil's parameters typed as the
     # documentation writes them, Fluid(200, 35, 0.8, 650): integers where they are integral
     ai = tuple(int(v) if float(v).is_integer() else v for v in (api, gg, gor))
